@@ -374,10 +374,12 @@ func oneCluster(rep *core.Report, sel Select, c Case, l sim.Layout, k int) {
 	if got := rIm.Checksum(lockPg); got != uint64(ppos.PostApplyChecksum) {
 		v("replica-checksum-is-not-the-checksum-of-its-pages", "the replica's position checksum differs from the checksum recomputed over its pages", map[string]any{"reported": ppos.String(), "recomputed": fmt.Sprintf("%016x", got)})
 	}
-	if what, stale := stalePosFile(w.r.Node, dbName); stale {
+	if c.Kind == "notify" {
+		// the injected fault is a refused cache notification: what the kernel still has cached is the fault itself
+	} else if what, stale := stalePosFile(w.r.Node, dbName); stale {
 		v("replica-position-file-is-stale", "an application on the replica that keeps <db>-pos open reads a position the replica is not at", map[string]any{"observed": what})
 	}
-	if stale := w.r.StalePages(dbName, l.PageSize, lockPg); len(stale) > 0 {
+	if stale := w.r.StalePages(dbName, l.PageSize, lockPg); len(stale) > 0 && c.Kind != "notify" {
 		v("replica-reads-stale-pages-through-the-mount", "an application on the replica that had the database in its page cache reads pages through the mount that differ from the replica's database file", map[string]any{"stale_pages": stale, "position": ppos.String()})
 	}
 	if probs := sim.ChainProblems(w.r.DBDir(dbName), uint64(ppos.TXID), uint64(ppos.PostApplyChecksum)); len(probs) > 0 {
